@@ -5,9 +5,14 @@
 //! Every subcommand prints a single JSON object on its last stdout line.
 
 mod ctrl;
+mod e2e;
+mod evmasm;
+mod blocks;
+mod components;
+mod json;
 mod kernels;
 mod lean;
-mod json;
+mod world;
 
 use ctrl::{Rng, Strategy};
 use json::J;
@@ -171,6 +176,11 @@ fn main() {
     let out = match args.sub.as_str() {
         "kernel-ctx" => cmd_kernel(&args, "ctx"),
         "kernel-dep" => cmd_kernel(&args, "dep"),
+        "e2e" => e2e::cmd_e2e(&args),
+        "faults" => e2e::cmd_faults(&args),
+        "witness" => e2e::cmd_witness(&args),
+        "history" => components::cmd_history(&args),
+        "reward" => components::cmd_reward(&args),
         other => J::obj(vec![("error", J::Str(format!("unknown subcommand {other}")))]),
     };
     println!("{}", out.render());
